@@ -11,6 +11,9 @@ def main():
         ok, out = core.coq_make([], timeout=5400)
         log(out[-3000:])
         if not ok: return 1
+        ok, out = run_coqchk()
+        log(out[-3000:])
+        if not ok: return 1
         ok, out = core.build_driver()
         log(out[-2000:])
         if not ok: return 1
@@ -18,3 +21,31 @@ def main():
         log(out[-2000:])
         if not ok: return 1
     return 0
+
+
+COQCHK_ALLOWED = {"<none>"} | core.STD_AXIOMS
+
+def run_coqchk():
+    """Independent re-check of every compiled property file (and everything it depends on) with coqchk;
+    the axiom summary must be empty or inside the standard-library allowlist."""
+    import glob, re
+    mods = []
+    for f in sorted(glob.glob(os.path.join(core.COQ, "Properties", "*.vo"))):
+        mods.append("Selen.Properties." + os.path.basename(f)[:-3])
+    if not mods:
+        return False, "no compiled property files"
+    rc, out = core.sh(["timeout", "3000", "coqchk", "-silent", "-o", "-Q", ".", "Selen"] + mods, cwd=core.COQ, timeout=3100)
+    os.makedirs(core.BUILD, exist_ok=True)
+    open(os.path.join(core.BUILD, "coqchk.txt"), "w").write(out)
+    if rc != 0:
+        return False, "coqchk failed:\n" + out
+    m = re.search(r"\* Axioms:(.*?)\n\s*\n\* Constants", out, re.S)
+    axs = [a.strip() for a in (m.group(1).split("\n") if m else []) if a.strip()]
+    bad = [a for a in axs if a not in COQCHK_ALLOWED and a.split(".")[-1] not in COQCHK_ALLOWED and not a.startswith("Coq.")]
+    for sect in ("type-in-type", "unsafe (co)fixpoints", "positivity is assumed"):
+        mm = re.search(re.escape(sect) + r":(.*?)\n\s*\n", out + "\n\n", re.S)
+        if mm and mm.group(1).strip() != "<none>":
+            return False, "coqchk reports %s: %s" % (sect, mm.group(1).strip())
+    if bad:
+        return False, "coqchk reports axioms outside the allowlist: %s" % bad
+    return True, "coqchk ok over %d property modules; axioms: %s" % (len(mods), axs)
